@@ -100,23 +100,24 @@ class TOpt(Ty):
     def sort(self):
         key = self.name
         if key not in _dt_cache:
-            dt = z3.Datatype("Opt_" + _mangle(self.inner.name))
-            dt.declare("none")
-            dt.declare("some", ("val", self.inner.sort()))
+            m = _mangle(self.inner.name)
+            dt = z3.Datatype("Opt_" + m)
+            dt.declare("none_" + m)
+            dt.declare("some_" + m, ("oval_" + m, self.inner.sort()))
             _dt_cache[key] = dt.create()
         return _dt_cache[key]
 
     def none(self):
-        return self.sort().none
+        return getattr(self.sort(), "none_" + _mangle(self.inner.name))
 
     def some(self, t):
-        return self.sort().some(t)
+        return getattr(self.sort(), "some_" + _mangle(self.inner.name))(t)
 
     def is_none(self, t):
-        return self.sort().is_none(t)
+        return getattr(self.sort(), "is_none_" + _mangle(self.inner.name))(t)
 
     def val(self, t):
-        return self.sort().val(t)
+        return getattr(self.sort(), "oval_" + _mangle(self.inner.name))(t)
 
 
 class TSeq(Ty):
@@ -138,16 +139,17 @@ class TTuple(Ty):
     def sort(self):
         key = self.name
         if key not in _dt_cache:
-            dt = z3.Datatype("Tup_" + _mangle(self.name))
-            dt.declare("mk", *[(f"f{i}", e.sort()) for i, e in enumerate(self.elems)])
+            m = _mangle(self.name)
+            dt = z3.Datatype("Tup_" + m)
+            dt.declare("mkt_" + m, *[(f"f{i}_{m}", e.sort()) for i, e in enumerate(self.elems)])
             _dt_cache[key] = dt.create()
         return _dt_cache[key]
 
     def mk(self, *ts):
-        return self.sort().mk(*ts)
+        return getattr(self.sort(), "mkt_" + _mangle(self.name))(*ts)
 
     def get(self, t, i):
-        return getattr(self.sort(), f"f{i}")(t)
+        return getattr(self.sort(), f"f{i}_{_mangle(self.name)}")(t)
 
 
 class TDict(Ty):
@@ -162,27 +164,29 @@ class TDict(Ty):
     def sort(self):
         key = self.name
         if key not in _dt_cache:
-            dt = z3.Datatype("Dict_" + _mangle(self.name))
-            fields = [("dom", z3.ArraySort(self.k.sort(), z3.BoolSort())), ("val", z3.ArraySort(self.k.sort(), self.v.sort()))]
+            m = _mangle(self.name)
+            dt = z3.Datatype("Dict_" + m)
+            fields = [("dom_" + m, z3.ArraySort(self.k.sort(), z3.BoolSort())), ("dval_" + m, z3.ArraySort(self.k.sort(), self.v.sort()))]
             if self.ordered:
-                fields.append(("keys", z3.SeqSort(self.k.sort())))
-            dt.declare("mk", *fields)
+                fields.append(("keys_" + m, z3.SeqSort(self.k.sort())))
+            dt.declare("mkd_" + m, *fields)
             _dt_cache[key] = dt.create()
         return _dt_cache[key]
 
     def mk(self, dom, val, keys=None):
+        c = getattr(self.sort(), "mkd_" + _mangle(self.name))
         if self.ordered:
-            return self.sort().mk(dom, val, keys)
-        return self.sort().mk(dom, val)
+            return c(dom, val, keys)
+        return c(dom, val)
 
     def dom(self, t):
-        return self.sort().dom(t)
+        return getattr(self.sort(), "dom_" + _mangle(self.name))(t)
 
     def val(self, t):
-        return self.sort().val(t)
+        return getattr(self.sort(), "dval_" + _mangle(self.name))(t)
 
     def keys(self, t):
-        return self.sort().keys(t)
+        return getattr(self.sort(), "keys_" + _mangle(self.name))(t)
 
 
 class TSet(Ty):
@@ -205,16 +209,17 @@ class TRec(Ty):
     def sort(self):
         key = self.name
         if key not in _dt_cache:
+            m = _mangle(self.cls.rsplit(".", 1)[-1])
             dt = z3.Datatype("Rec_" + _mangle(self.cls))
-            dt.declare("mk", *[(f"{_mangle(n)}", t.sort()) for n, t in self.fields])
+            dt.declare("mkr_" + m, *[(f"{m}_{_mangle(n)}", t.sort()) for n, t in self.fields])
             _dt_cache[key] = dt.create()
         return _dt_cache[key]
 
     def mk(self, *ts):
-        return self.sort().mk(*ts)
+        return getattr(self.sort(), "mkr_" + _mangle(self.cls.rsplit(".", 1)[-1]))(*ts)
 
     def get(self, t, fname):
-        return getattr(self.sort(), _mangle(fname))(t)
+        return getattr(self.sort(), f"{_mangle(self.cls.rsplit('.', 1)[-1])}_{_mangle(fname)}")(t)
 
     def fty(self, fname):
         for n, t in self.fields:
@@ -244,12 +249,13 @@ class TUnion(Ty):
     def sort(self):
         key = self.name
         if key not in _dt_cache:
-            dt = z3.Datatype("U_" + _mangle(self.name))
+            m = _mangle(self.name)
+            dt = z3.Datatype("U_" + m)
             for i, a in enumerate(self.alts):
                 if a is TNone:
-                    dt.declare(f"c{i}")
+                    dt.declare(f"c{i}_{m}")
                 else:
-                    dt.declare(f"c{i}", (f"v{i}", a.sort()))
+                    dt.declare(f"c{i}_{m}", (f"v{i}_{m}", a.sort()))
             _dt_cache[key] = dt.create()
         return _dt_cache[key]
 
@@ -260,14 +266,15 @@ class TUnion(Ty):
         return None
 
     def inject(self, i, t=None):
-        c = getattr(self.sort(), f"c{i}")
+        m = _mangle(self.name)
+        c = getattr(self.sort(), f"c{i}_{m}")
         return c if self.alts[i] is TNone else c(t)
 
     def is_alt(self, i, t):
-        return getattr(self.sort(), f"is_c{i}")(t)
+        return getattr(self.sort(), f"is_c{i}_{_mangle(self.name)}")(t)
 
     def proj(self, i, t):
-        return getattr(self.sort(), f"v{i}")(t)
+        return getattr(self.sort(), f"v{i}_{_mangle(self.name)}")(t)
 
 
 def _mangle(s: str) -> str:
